@@ -42,9 +42,9 @@ impl<I: SetsockoptSyscall> SetsockoptSyscall for NioSetsockoptSyscall<I> {
         let r= self.inner.setsockopt(fn_ptr, socket, level, name, value, option_len);
         if 0 == r && libc::SOL_SOCKET == level {
             if libc::SO_SNDTIMEO == name {
-                assert!(SEND_TIME_LIMIT.insert(socket, get_time_limit(unsafe { &*value.cast::<timeval>() })).is_none());
+                _ = SEND_TIME_LIMIT.insert(socket, get_time_limit(unsafe { &*value.cast::<timeval>() }));
             } else if libc::SO_RCVTIMEO == name {
-                assert!(RECV_TIME_LIMIT.insert(socket, get_time_limit(unsafe { &*value.cast::<timeval>() })).is_none());
+                _ = RECV_TIME_LIMIT.insert(socket, get_time_limit(unsafe { &*value.cast::<timeval>() }));
             }
         }
         r
